@@ -3,9 +3,9 @@ from ..rules import delivery
 from .common import declare
 
 RULES = ['TIMEDELTA-TOTAL', 'SWAP-ATOMIC', 'FLUSH-RESETS', 'ARM-CANCEL', 'APPEND-THEN-TEST', 'ARM-ON-FIRST', 'SERIAL-DRAIN', 'FIFO-END', 'EMIT-SIG',
-         'SINGLE-CONSUMER']
+         'SINGLE-CONSUMER', 'TICK-PERIOD']
 FLOORS = {'SWAP-ATOMIC': 6, 'ARM-CANCEL': 1, 'APPEND-THEN-TEST': 1, 'ARM-ON-FIRST': 1, 'SERIAL-DRAIN': 2, 'FIFO-END': 5,
-          'EMIT-SIG': 5, 'SINGLE-CONSUMER': 2}
+          'EMIT-SIG': 5, 'SINGLE-CONSUMER': 2, 'TICK-PERIOD': 4}
 NODES = ('timed_window', 'timed_window_unique', 'partition')
 
 META = {
@@ -13,17 +13,19 @@ META = {
              "suspension in between and emits what it read (SWAP-ATOMIC), one tick loop per node awaiting its emission before the "
              "next tick (SINGLE-CONSUMER, SERIAL-DRAIN, EMIT-SIG), FIFO batches (FIFO-END), the size test follows the append "
              "(APPEND-THEN-TEST), the timeout is armed on the first element of a batch and cancelled by a size flush under a "
-             "configuration-only guard (ARM-ON-FIRST, ARM-CANCEL). The deadline clause (clock arithmetic) and the "
-             "keep-first/keep-last values are not decided.",
+             "configuration-only guard (ARM-ON-FIRST, ARM-CANCEL). Of the deadline clause only its structural part is decided: "
+             "every tick cycle sleeps exactly once, unconditionally, for self.interval = convert_interval(argument), after awaiting "
+             "its emission, and the partition timer is call_later(self._timeout, self._flush, key) (TICK-PERIOD, ARM-ON-FIRST); the "
+             "clock arithmetic itself and the keep-first/keep-last values are not decided.",
     'note': "Trusted: suspension points = yield/await; loop.call_later returns a cancellable handle.",
     'technique': "static analysis: event paths + control-dependence of cancel/arm sites (SWAP-ATOMIC, ARM-CANCEL, "
-                 "APPEND-THEN-TEST, ARM-ON-FIRST, SERIAL-DRAIN)",
+                 "APPEND-THEN-TEST, ARM-ON-FIRST, SERIAL-DRAIN, TICK-PERIOD on symbolic normal forms)",
 }
 
 
 def run(ctx, R):
     R.explanation = 'Element-conservation shapes of the three time-window nodes on every enumerated path.'
-    R.not_decided = ['the deadline clause (an element is emitted no later than one interval after arrival)',
+    R.not_decided = ['the measured deadline (event-loop timing; only the tick period and the timer arguments are decided)',
                      'keep-first / keep-last value selection']
     declare(R, delivery.RULES, RULES, FLOORS)
     M = ctx.model
@@ -36,6 +38,7 @@ def run(ctx, R):
     R.run(delivery.check_fifo_end, ctx, R, classes)
     R.run(delivery.check_emit_sig, ctx, R, classes)
     R.run(delivery.check_single_consumer, ctx, R, classes)
+    R.run(delivery.check_tick_period, ctx, R, [c for c in classes if c.name != 'partition'])
 
 
 META['level'] += ' Durations are converted with total_seconds() (TIMEDELTA-TOTAL).'
